@@ -73,7 +73,13 @@ let vole_case id kv =
   let beta = List.map (fun c -> c = '1') (List.init (String.length (field kv "BETA")) (String.get (field kv "BETA"))) in
   let alpha0 = zrows (field kv "A0") and alpha1 = zrows (field kv "A1") in
   let ahat = zlist (field kv "AHAT") in
-  let theta = zrows (field kv "TH") and theta' = zrows (field kv "THP") in
+  let theta = zrows (field kv "TH") in
+  (* one table of re-derived challenges per ATilde alteration, consumed in order (the last one is reused) *)
+  let thps = ref (List.map zrows (String.split_on_char '|' (field kv "THP"))) in
+  let next_thp () = match !thps with
+    | [t] -> t
+    | t :: r -> thps := r; t
+    | [] -> theta in
   let fn tbl = fun i kk -> List.nth (List.nth tbl (int_of_nat i)) (int_of_nat kk) in
   let (msg, c) = alice_round3 k (fun _ -> fn theta) nl nrho nxi g a ahat alpha0 alpha1 in
   let gamma = ot_gamma k nxi (nat_of_int (l + rho)) beta alpha0 alpha1 in
@@ -95,6 +101,7 @@ let vole_case id kv =
              let j = int_of_string j and i = int_of_string i in
              let row = List.nth msg.m_atilde j in
              let row' = upd row i (addp (List.nth row i) v) in
+             let theta' = next_thp () in
              run (fun _ -> fn theta') { msg with m_atilde = upd msg.m_atilde j row' }
            | _ -> failwith "bad A tamper")
         | 'E' ->
@@ -109,7 +116,8 @@ let vole_case id kv =
       end in
     match r with Some _ -> "1" | None -> "0" in
   let tampers = split_on ';' (field kv "TAMPER") in
-  Printf.printf "V %s B=%s C=%s AT=%s D=%s V=%s\n" id (hex_of_z b) (show_zlist c) (show_zrows msg.m_atilde)
+  Printf.printf "V %s B=%s C=%s AT=%s ETA=%s MU=%s D=%s V=%s\n" id (hex_of_z b) (show_zlist c) (show_zrows msg.m_atilde)
+    (show_zlist msg.m_eta) (show_zrows msg.m_mu)
     (match d with Some d -> show_zlist d | None -> "ABORT")
     (String.concat "" (List.map verdict tampers))
 
